@@ -35,8 +35,8 @@ RULE = (
     "classes; distinct = case hash."
 )
 ASSUMPTIONS = ["weights of alternative optima may legitimately differ between processes, so only solved status, objective and number of routes are compared"]
-BUDGET = {"quick": {"examples": 0, "deadline_s": 100}, "thorough": {"examples": 0, "deadline_s": 900}}
-MACHINE_EXAMPLES = {"quick": 220, "thorough": 4000}
+BUDGET = {"quick": {"examples": 0, "deadline_s": 150}, "thorough": {"examples": 0, "deadline_s": 900}}
+MACHINE_EXAMPLES = {"quick": 260, "thorough": 4000}
 STEP_COUNT = {"quick": 4, "thorough": 6}
 DAG = ["kFlowDecomp", "MinFlowDecomp", "kLeastAbsErrors", "kMinPathError", "kPathCover", "MinPathCover"]
 CYC = ["kFlowDecompCycles", "MinFlowDecompCycles", "kLeastAbsErrorsCycles", "kMinPathErrorCycles", "kPathCoverCycles", "MinPathCoverCycles"]
@@ -288,7 +288,7 @@ def instances(draw, tier):
         opts[f] = draw(st.booleans())
     if opts.get("optimize_with_safe_paths") and opts.get("optimize_with_safe_sequences"):
         opts.pop("optimize_with_safe_sequences")
-    if not kw.get("error_scaling") and draw(st.booleans()):
+    if not kw.get("error_scaling") and draw(st.integers(0, 3)) > 0:
         # an error scale factor (0 = "treat as ignored") on one weighted edge: shared by every class that takes scalings
         es = [[u, v] for u, v, d in case["graph"]["edges"] if "flow" in d]
         if es:
@@ -297,7 +297,8 @@ def instances(draw, tier):
         "optimization_options": opts,
         "solver_options": "fixed",
         "constraints": kw.get(CONSTRAINT_KEY[case["cls"]]),
-        "elements_to_ignore": kw.get("elements_to_ignore"),
+        # a caller's own (possibly still empty) ignore list is an object like any other
+        "elements_to_ignore": kw.get("elements_to_ignore") if kw.get("elements_to_ignore") is not None else ([] if draw(st.booleans()) else None),
         "error_scaling": kw.get("error_scaling"),
     }
     return {"graph": case["graph"], "family": fam, "shared": shared, "k0": case["meta"]["k0"], "steps": []}
